@@ -40,30 +40,35 @@ def check(t, expect, what, fails):
 
 def encoder_run():
     """one Encoder through 70 000 blocks that each insert a new small field (sequence numbers, ages and insertion counters
-    past 2^16): at checkpoints the three newest fields are sent again and must each go out as ONE indexed field -- 62, 63,
-    64 -- and a field evicted long ago must go out as a literal"""
+    past 2^15 and 2^16): at checkpoints -- every insertion around the powers of two, sparsely elsewhere -- the newest, the
+    20th-newest and the 45th-newest field are sent again and must each go out as ONE indexed field (62, 81, 106), and a
+    field evicted thousands of insertions ago must go out as a literal"""
     from hpack import Encoder
+    from collections import deque
     fails, n = [], 0
     e = Encoder()
-    last = []
-    for j in range(70000):
-        f = (b'x-seq', b'%d' % j)
+    recent = deque(maxlen=60)          # newest first: what the table holds at its front
+    inserted = 0
+    j = 0
+    while inserted < 70000:
+        f = (b'x-seq', b'%d' % j); j += 1
         e.encode([f], huffman=False)
-        last = ([f] + last)[:3]
-        n += 1
-        if j >= 3 and (j % 4999 == 0 or 65530 <= j <= 65545 or j in (32767, 32768, 32769, 69999)):
-            out = bytes(e.encode(last, huffman=False))
+        recent.appendleft(f); inserted += 1; n += 1
+        dense = any(abs(inserted - p) <= 150 for p in (1 << 15, 1 << 16)) or inserted in (255, 256, 257, 1023, 1024, 1025, 4096, 69999)
+        if len(recent) >= 45 and (dense or inserted % 4999 == 0):
+            again = [recent[0], recent[19], recent[44]]
+            out = bytes(e.encode(again, huffman=False))
             n += 1
-            if out != b'\xbe\xbf\xc0':
-                fails.append({'sig': 'not-indexed', 'text': 'after %d insertions on one Encoder the three newest fields %r, sent again, were encoded as %s (each is in the table: expected the three indexed fields be bf c0)' % (j + 1, last, out.hex())})
+            if out != bytes([0x80 | 62, 0x80 | 81, 0x80 | 106]):
+                fails.append({'sig': 'not-indexed', 'text': 'after %d insertions on one Encoder the newest, 20th-newest and 45th-newest fields %r, sent again, were encoded as %s (each is in the table: expected the three indexed fields be d1 ea)' % (inserted, again, out.hex())})
                 break
-            if j > 6000:
+            if inserted > 6000 and inserted % 7 == 0:
                 gone = (b'x-seq', b'%d' % (j - 5000))          # evicted thousands of insertions ago, never sent since
                 old = bytes(e.encode([gone], huffman=False))
                 n += 1
                 if len(old) == 1:
-                    fails.append({'sig': 'stale-index', 'text': 'after %d insertions the field %r, evicted long ago, was sent as the index %s' % (j + 1, gone, old.hex())}); break
-                last = ([gone] + last)[:3]
+                    fails.append({'sig': 'stale-index', 'text': 'after %d insertions the field %r, evicted long ago, was sent as the index %s' % (inserted, gone, old.hex())}); break
+                recent.appendleft(gone); inserted += 1
     print(json.dumps({'evaluations': n, 'failures': fails[:2]}))
 
 
